@@ -205,6 +205,11 @@ def run_check(check_id, tier, seed, replay=None, limit=None):
     n = len(cases)
     timeout = float(os.environ.get("VERIF_WATCHDOG", WATCHDOG.get(tier, 90.0)))
     timeout = getattr(mod, "WATCHDOG", {}).get(tier, timeout)
+    # validation helpers (mutation sweeps against scratch copies; never set by MANIFEST commands): cap the watchdog and stop
+    # handing out cases once enough violations / watchdog firings were collected
+    stop_after = int(os.environ.get("VERIF_STOP_AFTER", "0")) if "VERIF_REPO" in os.environ else 0
+    if "VERIF_REPO" in os.environ and os.environ.get("VERIF_WATCHDOG_CAP"):
+        timeout = min(timeout, float(os.environ["VERIF_WATCHDOG_CAP"]))
 
     work = queue.Queue()
     for i, d in enumerate(cases):
@@ -214,6 +219,8 @@ def run_check(check_id, tier, seed, replay=None, limit=None):
     njobs = min(env.jobs(), max(1, n))
     njobs = min(njobs, getattr(mod, "MAX_JOBS", njobs))
 
+    wd = {"fired": 0, "skipped": 0}
+
     def slot_main(slot):
         wp = WorkerProc(check_id, slot, logdir)
         try:
@@ -222,8 +229,18 @@ def run_check(check_id, tier, seed, replay=None, limit=None):
                     i, d = work.get_nowait()
                 except queue.Empty:
                     return
+                if stop_after and (len(agg.violations) >= stop_after or len(agg.inconclusive) >= stop_after):
+                    continue
+                if wd["fired"] >= 24:
+                    # the tree under test hangs or kills workers case after case: stop burning watchdog periods, the run is inconclusive
+                    wd["skipped"] += 1
+                    continue
                 res = wp.run_case(i, d, timeout)
-                if res.get("status") == "inconclusive" and res.get("detail", "").startswith(("wall-clock watchdog", "worker died", "worker pipe")):
+                env_fail = res.get("status") == "inconclusive" and res.get("detail", "").startswith(("wall-clock watchdog", "worker died", "worker pipe"))
+                if env_fail:
+                    with agg_lock:
+                        wd["fired"] += 1
+                if env_fail and wd["fired"] <= 6:
                     # environmental (load, interpreter quirks): re-execute once in a fresh worker before reporting it
                     first = res
                     res = wp.run_case(i, d, timeout)
@@ -246,10 +263,12 @@ def run_check(check_id, tier, seed, replay=None, limit=None):
         reasons = list(mod.finalize(agg, tier) or [])
     except Exception as ex:
         reasons = [f"finalize failed: {ex!r}"]
-    if replay:
-        reasons = []
+    if replay or (limit and "VERIF_REPO" in os.environ):
+        reasons = []  # truncated validation runs: the "monitor reached often enough" thresholds are sized for full tiers
     for i, d, r in agg.inconclusive[:20]:
         reasons.append(f"case {i}: {r.get('detail')}")
+    if wd["skipped"]:
+        reasons.append(f"{wd['fired']} cases ended in the wall-clock watchdog or killed their worker; the remaining {wd['skipped']} cases were not executed")
 
     # ---- report
     wall = time.time() - t0
@@ -306,7 +325,7 @@ def run_check(check_id, tier, seed, replay=None, limit=None):
         ev_dir = os.path.join(env.VERIF, "scratch", "validation-evidence") if validation else os.path.join(env.VERIF, "evidence")
         os.makedirs(ev_dir, exist_ok=True)
         ev_path = os.path.join(ev_dir, f"{check_id}.json")
-        tmp = ev_path + ".tmp"
+        tmp = ev_path + f".tmp{os.getpid()}"
         with open(tmp, "w") as f:
             json.dump(evidence, f, indent=1, default=str, sort_keys=True)
         os.replace(tmp, ev_path)
